@@ -302,6 +302,10 @@ impl Header {
         if !flags_ok {
             return Err(Error::InvalidHeader.into());
         }
+        // these packets have neither a variable header nor a payload
+        if matches!(typ, PacketType::Pingreq | PacketType::Pingresp) && remaining_len != 0 {
+            return Err(Error::InvalidRemainingLength.into());
+        }
         Ok(Header {
             typ,
             dup: false,
